@@ -1,11 +1,11 @@
-\* N=3, everything emitted (1138 DAGs)
+\* N=4 exhaustive (58 789 DAGs), one in 6 emitted for replay
 SPECIFICATION Spec
 CONSTANTS
   MergeTag = 2
-  N = 3
+  N = 4
   Kinds = {"b0", "b1", "fin"}
   Ops = {"n"}
-  EmitEvery = 1
+  EmitEvery = 6
   EmitSalt = 0
 INVARIANTS InvAlgEqRef InvLcaWalk InvFoldWalk InvFinalize InvOnce InvDominator InvFinalizeFirst Emit
 CHECK_DEADLOCK FALSE
